@@ -1110,7 +1110,7 @@ class VMNetwork(object):
 
             # updating proto (higher level) params (test params -> vm params -> nic params)
             # TODO: need to update all relevant parameters or regenerate at once
-            interface.params["netmask"] = new_mask
+            interface.params["netmask"] = netconfig.netmask
             interface.params["ip"] = interface.ip
             node.platform.params["ip_%s" % interface.name] = interface.ip
             node.platform.params["ip_%s_%s" % (interface.name, node.name)] = (
